@@ -612,6 +612,13 @@ def r7(ctx):
                             ok = ok and u(g.iter) in ("alts", "(alt,)", "[alt]", "self.alternative_alleles", "(self.alternative_allele,)")
                     elif anys:
                         ok = False
+                    elif not alls and cls == "BiallelicVcfVariant":
+                        # a single ALT: the quantifier degenerates to one comparison ref[k] == alt[k]
+                        eqs = [c for c in conj if isinstance(c, ast.Compare) and len(c.ops) == 1 and isinstance(c.ops[0], ast.Eq) and isinstance(c.left, ast.Subscript) and isinstance(c.comparators[0], ast.Subscript)]
+                        if len(eqs) == 1:
+                            l_, r_ = eqs[0].left, eqs[0].comparators[0]
+                            sides = {u(l_.value), u(r_.value)}
+                            ok = sides in ({"ref", "alt"}, {"self.reference_allele", "self.alternative_allele"}) and u(l_.slice) == u(r_.slice) and cnt in u(l_.slice) and len(bound) == 1
             if ok is None:
                 ctx.ob(fi.qual, "strip-%s-only-if-shared-by-all" % which, None, fi.loc(w), "normalisation loop `while %s` is neither a strip-one-character loop nor a shared-length counter" % u(w.test)[:100])
             else:
